@@ -184,8 +184,9 @@ def gobTimeStd (ns off : Int) : Bytes :=
 /-- `(*LocalizedTime).MarshalMsgpack` (/repo/internal/time.go:26-41): the standard layout when
     `offset >= 0 || offset%60 == 0`; otherwise version 2 with the minutes rounded DOWN
     (`offset/60 - 1`, truncating division) and the seconds `offset - min*60` in 1..59.  Where Go
-    fails (offset -60: `MarshalBinary` refuses; minutes outside int16 in the standard branch) the
-    bytes written here are meaningless: those offsets are excluded by `TimeOK`. -/
+    fails (offset -60: `MarshalBinary` refuses; minutes outside int16 in the standard branch; rounded-down
+    minutes below -32768 in the repaired branch, refused since 24a08c0) the bytes written here are
+    meaningless: those offsets are excluded by `TimeOK`. -/
 def gobTime (ns off : Int) : Bytes :=
   if 0 ≤ off ∨ goMod off 60 = 0 then gobTimeStd ns off
   else
